@@ -17,6 +17,7 @@ func init() { registry["C19"] = checkC19 }
 type yieldSite struct {
 	Call   *ast.CallExpr
 	Block  *cfg.Block
+	Returned bool // push idiom: the call is the operand of a return statement
 	IsCond bool // the call is (up to ! and parentheses) the whole condition ending its block
 	Negate bool // condition is !yield(...)
 }
@@ -77,11 +78,89 @@ func checkC19(ctx *Ctx) *Result {
 		id, ok := c.Fun.(*ast.Ident)
 		return ok && info.Uses[id] == allObj
 	}
+	// The producer: the literal itself, or — the "push" idiom — a package-level
+	// helper W(err error, yield func(error) bool) bool to which the literal
+	// hands its argument and its yield, and which recurses on the children
+	// instead of ranging over All(child). W's result means "go on".
+	prodBody := lit.Body
+	var walkObj types.Object
+	var walkDecl *ast.FuncDecl
+	if len(lit.Body.List) == 1 {
+		var call *ast.CallExpr
+		ast.Inspect(lit.Body.List[0], func(n ast.Node) bool {
+			if c, ok := n.(*ast.CallExpr); ok && call == nil {
+				call = c
+				return false
+			}
+			return true
+		})
+		if call != nil && len(call.Args) == 2 {
+			id, _ := call.Fun.(*ast.Ident)
+			a0, _ := call.Args[0].(*ast.Ident)
+			a1, _ := call.Args[1].(*ast.Ident)
+			if id != nil && a0 != nil && a1 != nil && info.Uses[a0] == errParam && info.Uses[a1] == yieldObj {
+				for _, f := range pk.Syntax {
+					for _, d := range f.Decls {
+						fd, ok := d.(*ast.FuncDecl)
+						if !ok || fd.Recv != nil || fd.Body == nil || info.Defs[fd.Name] != info.Uses[id] {
+							continue
+						}
+						sig, _ := info.Defs[fd.Name].Type().(*types.Signature)
+						if sig == nil || sig.Params().Len() != 2 || sig.Results().Len() != 1 ||
+							types.TypeString(sig.Params().At(0).Type(), nil) != "error" ||
+							types.TypeString(sig.Params().At(1).Type(), nil) != "func(error) bool" ||
+							types.TypeString(sig.Results().At(0).Type(), nil) != "bool" {
+							continue
+						}
+						walkDecl, walkObj = fd, info.Defs[fd.Name]
+					}
+				}
+			}
+		}
+	}
+	modeB := walkDecl != nil
+	isWalkCall := func(c *ast.CallExpr) bool {
+		id, ok := c.Fun.(*ast.Ident)
+		if !ok || walkObj == nil || info.Uses[id] != walkObj || len(c.Args) != 2 {
+			return false
+		}
+		y, ok := c.Args[1].(*ast.Ident)
+		return ok && info.Uses[y] == yieldObj
+	}
+	if modeB {
+		r.fn("cfgerrors." + walkDecl.Name.Name)
+		// the literal does nothing but start the helper on its own argument
+		r.ok("R19.1", "All's literal hands its argument and its yield to "+walkDecl.Name.Name, 1, "")
+		var names []*ast.Ident
+		for _, f := range walkDecl.Type.Params.List {
+			names = append(names, f.Names...)
+		}
+		if len(names) != 2 {
+			r.undecided("R19.1", "cfgerrors."+walkDecl.Name.Name, "unnamed parameters")
+			return r
+		}
+		errParam, yieldObj = info.Defs[names[0]], info.Defs[names[1]]
+		prodBody = walkDecl.Body
+		// in the helper a recursive call plays the part of `range All(child)`
+		isAllCall = isWalkCall
+	}
+	// a producing call: yield itself or (push idiom) the helper handed the same yield
+	isProduce := func(c *ast.CallExpr) bool { return isYield(c) || (modeB && isWalkCall(c)) }
 	// yield must not escape (passed on, stored): every use is a call
 	escapes := false
-	ast.Inspect(lit.Body, func(n ast.Node) bool {
+	ast.Inspect(prodBody, func(n ast.Node) bool {
 		if id, ok := n.(*ast.Ident); ok && info.Uses[id] == yieldObj {
 			escapes = true
+		}
+		if c, ok := n.(*ast.CallExpr); ok && modeB && isWalkCall(c) {
+			// yield handed on unchanged to the helper: seen
+			ast.Inspect(c.Args[0], func(m ast.Node) bool {
+				if id, ok := m.(*ast.Ident); ok && info.Uses[id] == yieldObj {
+					escapes = true
+				}
+				return true
+			})
+			return false
 		}
 		if c, ok := n.(*ast.CallExpr); ok && isYield(c) {
 			for _, a := range c.Args {
@@ -99,14 +178,14 @@ func checkC19(ctx *Ctx) *Result {
 	})
 	r.check(!escapes, "R19.1", "yield is only ever called", p.Pos(lit.Pos()), "yield is passed on or stored; its calls cannot all be seen", 1)
 
-	g := cfg.New(lit.Body, func(*ast.CallExpr) bool { return true })
+	g := cfg.New(prodBody, func(*ast.CallExpr) bool { return true })
 	containsYield := func(b *cfg.Block) (n int) {
 		for _, nd := range b.Nodes {
 			ast.Inspect(nd, func(m ast.Node) bool {
 				if _, isLit := m.(*ast.FuncLit); isLit {
 					return false
 				}
-				if c, ok := m.(*ast.CallExpr); ok && isYield(c) {
+				if c, ok := m.(*ast.CallExpr); ok && isProduce(c) {
 					n++
 				}
 				return true
@@ -146,10 +225,13 @@ func checkC19(ctx *Ctx) *Result {
 					return false
 				}
 				c, ok := m.(*ast.CallExpr)
-				if !ok || !isYield(c) {
+				if !ok || !isProduce(c) {
 					return true
 				}
 				ys := yieldSite{Call: c, Block: b}
+				if rs, isRet := nd.(*ast.ReturnStmt); isRet && modeB && len(rs.Results) == 1 && rs.Results[0] == ast.Expr(c) {
+					ys.Returned = true // `return yield(x)`: the verdict is passed up unchanged
+				}
 				if i == len(b.Nodes)-1 && len(b.Succs) == 2 {
 					if e, isExpr := nd.(ast.Expr); isExpr {
 						neg := false
@@ -177,10 +259,40 @@ func checkC19(ctx *Ctx) *Result {
 			})
 		}
 	}
+	// push idiom: the literal `false` results, and which blocks return what
+	retKind := func(b *cfg.Block) string { // "", "false", "true", "call", "other"
+		for _, nd := range b.Nodes {
+			rs, ok := nd.(*ast.ReturnStmt)
+			if !ok {
+				continue
+			}
+			if len(rs.Results) != 1 {
+				return "other"
+			}
+			switch x := rs.Results[0].(type) {
+			case *ast.Ident:
+				if x.Name == "false" || x.Name == "true" {
+					if _, isConst := info.Uses[x].(*types.Const); isConst {
+						return x.Name
+					}
+				}
+			case *ast.CallExpr:
+				if isProduce(x) {
+					return "call"
+				}
+			}
+			return "other"
+		}
+		return ""
+	}
 	for _, ys := range sites {
 		desc := "yield @" + p.Pos(ys.Call.Pos())
 		var starts []*cfg.Block
 		var bad string
+		if ys.Returned {
+			r.ok("R19.1", desc, 1, "result returned unchanged")
+			continue
+		}
 		if !ys.IsCond {
 			// the result is not branched on. That is harmless iff nothing more
 			// can be produced after the call whatever it returned: a discarded
@@ -226,6 +338,12 @@ func checkC19(ctx *Ctx) *Result {
 				bad = fmt.Sprintf("after yield returned false, control can reach %s (block %d: %s)", why, b.Index, b.Kind)
 				return
 			}
+			if modeB {
+				if k := retKind(b); k != "" && k != "false" {
+					bad = fmt.Sprintf("after yield returned false the helper can return something other than false (block %d returns %s): its caller goes on producing", b.Index, k)
+					return
+				}
+			}
 			for _, s := range b.Succs {
 				walk(s)
 			}
@@ -238,12 +356,52 @@ func checkC19(ctx *Ctx) *Result {
 	if len(sites) < 2 {
 		r.undecided("R19.1", "yield-sites", fmt.Sprintf("%d yield calls found, expected 2 (leaf, join element)", len(sites)))
 	}
+	if modeB {
+		// the helper reports "stop" only when a yield did: with every
+		// `returned false` edge removed, no `return false` is reachable; and it
+		// returns nothing but true, false or a producing call's own result
+		cut := map[*cfg.Block]*cfg.Block{}
+		for _, ys := range sites {
+			if ys.IsCond {
+				f := ys.Block.Succs[1]
+				if ys.Negate {
+					f = ys.Block.Succs[0]
+				}
+				cut[ys.Block] = f
+			}
+		}
+		seen := map[*cfg.Block]bool{}
+		bad := ""
+		var walk func(b *cfg.Block)
+		walk = func(b *cfg.Block) {
+			if seen[b] {
+				return
+			}
+			seen[b] = true
+			switch retKind(b) {
+			case "false":
+				bad = fmt.Sprintf("the helper can return false although no yield returned false (block %d): its caller stops early and leaves are dropped", b.Index)
+			case "other":
+				bad = fmt.Sprintf("the helper returns something other than true, false or a producing call's result (block %d)", b.Index)
+			}
+			for _, s := range b.Succs {
+				if cut[b] == s && !(len(b.Succs) == 2 && b.Succs[0] == b.Succs[1]) {
+					continue
+				}
+				walk(s)
+			}
+		}
+		if len(g.Blocks) > 0 {
+			walk(g.Blocks[0])
+		}
+		r.check(bad == "", "R19.1", "helper result = \"no yield returned false\"", p.Pos(walkDecl.Pos()), bad, len(seen))
+	}
 
 	// ---- R19.2: arguments, loop nests, multiplicity --------------------
 	// aliases of the error being flattened: the parameter and type-switch bindings of it
 	alias := map[types.Object]bool{errParam: true}
 	var tswitch *ast.TypeSwitchStmt
-	ast.Inspect(lit.Body, func(n ast.Node) bool {
+	ast.Inspect(prodBody, func(n ast.Node) bool {
 		ts, ok := n.(*ast.TypeSwitchStmt)
 		if !ok {
 			return true
@@ -280,7 +438,7 @@ func checkC19(ctx *Ctx) *Result {
 	var okAssign *ast.AssignStmt
 	nOkAssign := 0
 	if tswitch == nil {
-		ast.Inspect(lit.Body, func(n ast.Node) bool {
+		ast.Inspect(prodBody, func(n ast.Node) bool {
 			if _, isLit := n.(*ast.FuncLit); isLit {
 				return false
 			}
@@ -315,7 +473,7 @@ func checkC19(ctx *Ctx) *Result {
 		})
 		if okObj != nil {
 			// ok must have this single assignment
-			ast.Inspect(lit.Body, func(n ast.Node) bool {
+			ast.Inspect(prodBody, func(n ast.Node) bool {
 				switch a := n.(type) {
 				case *ast.AssignStmt:
 					for _, l := range a.Lhs {
@@ -410,7 +568,7 @@ func checkC19(ctx *Ctx) *Result {
 	// parent map
 	parents := map[ast.Node]ast.Node{}
 	var stack []ast.Node
-	ast.Inspect(lit.Body, func(n ast.Node) bool {
+	ast.Inspect(prodBody, func(n ast.Node) bool {
 		if n == nil {
 			stack = stack[:len(stack)-1]
 			return true
@@ -481,6 +639,37 @@ func checkC19(ctx *Ctx) *Result {
 	nLeaf, nJoin := 0, 0
 	for _, ys := range sites {
 		desc := "yield @" + p.Pos(ys.Call.Pos())
+		if modeB && isWalkCall(ys.Call) {
+			// push idiom: the children are flattened by one recursive call per
+			// element of one range over the join's own Unwrap()
+			nJoin++
+			good, detail := true, ""
+			ranges := enclosingRanges(ys.Call)
+			if len(ranges) != 1 || ranges[0] == nil {
+				good, detail = false, "the recursive call does not sit in exactly one range loop over the join's children"
+			} else {
+				outer := ranges[0]
+				if outer.Value == nil || objOf(ys.Call.Args[0]) == nil || objOf(ys.Call.Args[0]) != objOf(outer.Value) {
+					good, detail = false, "the recursive call is not applied to the child being visited"
+				}
+				oc, ok := outer.X.(*ast.CallExpr)
+				if ok {
+					sel, isSel := oc.Fun.(*ast.SelectorExpr)
+					if !isSel || sel.Sel.Name != "Unwrap" || !alias[objOf(sel.X)] {
+						good, detail = false, "the loop does not range over the join's own Unwrap()"
+					} else if sig, _ := info.TypeOf(oc.Fun).(*types.Signature); sig == nil || sig.Results().Len() != 1 || types.TypeString(sig.Results().At(0).Type(), nil) != "[]error" {
+						good, detail = false, "Unwrap() does not return []error"
+					}
+				} else {
+					good, detail = false, "the loop does not range over the join's own Unwrap()"
+				}
+				if region(outer.X) != "join" {
+					good, detail = false, "children are flattened outside the join case of the dispatch"
+				}
+			}
+			r.check(good, "R19.2", desc+" (join element, recursive helper)", p.Pos(ys.Call.Pos()), detail, 1)
+			continue
+		}
 		if len(ys.Call.Args) != 1 {
 			r.fail("R19.2", desc, p.Pos(ys.Call.Pos()), "yield called with an unexpected number of arguments")
 			continue
@@ -593,7 +782,7 @@ func checkC19(ctx *Ctx) *Result {
 			}
 			return true
 		})
-		min, max := yieldCounts(bg, isYield, explicit)
+		min, max := yieldCounts(bg, isProduce, explicit)
 		// max counts paths that continue after a yield; a path that stops after a false yield has had ≥1
 		r.check(min == 1 && max == 1, "R19.2", fmt.Sprintf("exactly one yield per pass through the %s @%s", what, p.Pos(ys.Call.Pos())), p.Pos(ys.Call.Pos()),
 			fmt.Sprintf("a pass through the %s can perform between %d and %d yields", what, min, max), len(bg.Blocks))
